@@ -699,6 +699,18 @@ impl PendingRequests {
   }
 }
 
+/// Removes a pending request from the table when dropped.
+struct PendingRequestGuard {
+  pending_requests: PendingRequests,
+  correlation_id: u32,
+}
+
+impl Drop for PendingRequestGuard {
+  fn drop(&mut self) {
+    self.pending_requests.remove(&self.correlation_id);
+  }
+}
+
 struct ClientConn<S, HS, ST>
 where
   S: AsyncRead + AsyncWrite + Send + Sync + 'static,
@@ -914,19 +926,19 @@ where
     // Create response channels.
     let (resp_tx, resp_rx) = oneshot::channel();
 
-    // Register the pending request.
+    // Register the pending request. The entry (and the in-flight permit it owns) is released when this
+    // future completes or is dropped, e.g. by the caller's request timeout.
     pending_requests.insert(correlation_id, PendingRequest { sender: Some(resp_tx), _permit: permit });
+
+    let _pending_guard = PendingRequestGuard { pending_requests: pending_requests.clone(), correlation_id };
 
     // Send the message.
     if let Err(e) = writer_tx.send((message, payload_opt)).await {
-      pending_requests.remove(&correlation_id);
       return Err(anyhow!("failed to send message: {}", e));
     }
 
     // Wait for a response with timeout.
     let resp = resp_rx.await;
-
-    pending_requests.remove(&correlation_id);
 
     // Return the response.
     match resp {
